@@ -245,7 +245,8 @@ where
             // Reset offset
             offset.fill(0);
             // println!("corner: {corner:?}");
-            'window: loop {
+            // Cells without elements add nothing to a window
+            'window: while cell_len > 0 {
                 // Update curr
                 for (i, c) in curr.iter_mut().enumerate() {
                     *c = corner[i] + offset[i] as isize;
